@@ -80,6 +80,10 @@ func c16Render(p *c16Prog) string {
 		fmt.Fprintf(&sb, "for { v, ok = <- c%d; if !ok { break }; res += [v] }\n", last)
 	case 2:
 		fmt.Fprintf(&sb, "for { v = (<- c%d); if v == nil { break }; res += [v] }\n", last)
+	case 3: // ok lives outside the block the receive statement stands in
+		fmt.Fprintf(&sb, "ok = true; v = nil\nfor ok { if true { v, ok = <- c%d; if ok { res += [v] } } }\n", last)
+	case 4: // the receive statement inside a try block and inside a function that sets outer names
+		fmt.Fprintf(&sb, "ok = true; v = nil\nfunc take() { try { v, ok = <- c%d } catch e { ok = false } }\nfor ok { take(); if ok { res += [v] } }\n", last)
 	}
 	sb.WriteString("res\n")
 	return sb.String()
@@ -184,7 +188,7 @@ func c16Main(seed uint64, n int, outDir string) error {
 	stuck := 0
 	for i := 0; i < n && stuck < 6; i++ {
 		p := &c16Prog{Cap0: []int{0, 0, 1, 2, 5}[rnd.Intn(5)], Elem: []string{"int64", "int64", "interface", "float64"}[rnd.Intn(4)],
-			Consumer: rnd.Intn(3), Producer: rnd.Intn(4)}
+			Consumer: rnd.Intn(5), Producer: rnd.Intn(4)}
 		ns := rnd.Intn(5)
 		for j := 0; j < ns; j++ {
 			p.Stages = append(p.Stages, c16Stage{F: rnd.Intn(5), Cap: []int{0, 0, 1, 3}[rnd.Intn(4)]})
